@@ -280,12 +280,9 @@ class LiteralUnpackerBuilder(AbstractUnpackerBuilder):
                 enum_type_name = spec.builder.get_type_name_identifier(
                     lit_type
                 )
-                with lines.indent(
-                    f"if value == {enum_type_name}.{literal_value.name}.value:"
-                ):
-                    lines.append(
-                        f"return {enum_type_name}.{literal_value.name}"
-                    )
+                member = f"{enum_type_name}[{literal_value.name!r}]"
+                with lines.indent(f"if value == {member}.value:"):
+                    lines.append(f"return {member}")
             elif isinstance(literal_value, bytes):
                 unpacker = UnpackerRegistry.get(
                     spec.copy(type=bytes, expression="value")
